@@ -164,7 +164,7 @@ func FormatURI(input interface{}) (string, error) {
 
 	// If a userstorekey was given, encode the connection properties
 	// (that contain the key) and return the resulting string
-	if strings.Contains(connectProp.Encode(), "KEY") {
+	if _, ok := connectProp["KEY"]; ok {
 		return fmt.Sprintf("%s://?%s", urlValues.Scheme, connectProp.Encode()), nil
 	}
 
